@@ -54,6 +54,11 @@ CHECKS = {
         text="Lean theorems (Props/C02.lean): for every integer kind and every value in its range parse(format n) = n, booleans likewise, out-of-range text is refused (no wrap-around), formatting is injective, and the location partition is exact (an attribute is in the body iff no path/query/header/cookie mapping names it); the wire strings the real generated clients produce are compared with the model's format and parsed back. End to end: per design goa generates client and server, the glue links them, and valid payloads from a type-directed boundary generator are sent through the generated client; the value the service method received must equal the value sent (seven classes of genuine deviations are recorded as known findings: unescaped path values, cookie octets, zero values of defaulted attributes, empty strings outside bodies).",
         note="The end-to-end claim for all designs is decided by executing the generated code (per design and value), not by a Lean theorem about the generators; JSON codec, net/http header/cookie sanitising are library code; streaming not generated yet; floats restricted to dyadic rationals.",
         ref="DESIGN.md §3 C02/C03", technique="Lean 4 proof of the string transport and location partition + execution of generated client/server pairs (translation validation by round trip)"),
+    "C04": dict(
+        category="proof",
+        text="Specification of the design's validations as a Lean function (Model/Validation.lean: violations, handle) with theorems in Props/C04.lean: the method is invoked iff no rule is broken, a rejection names a broken rule, inclusive vs exclusive bounds at the boundary, lengths in runes, recursion through arrays, map keys and values, nested objects, required vs optional. Tie T5: per design the generated server and client are built and boundary values, wrong JSON types, nulls, out-of-type-range numbers, dropped parameters and invalid results are sent; drv_valid judges each (attribute, value) pair and verdicts are compared with 'service invoked / 400 + error name / client error'.",
+        note="The theorems are about the specification; that the code generator implements it is decided per design and value by execution, not by a Lean theorem about codegen/validation.go (gen_correct is future work). Format and pattern verdicts are oracle bits (C17 owns the validators). Unions, views, Extend/Reference, multipart and streaming are not generated yet.",
+        ref="DESIGN.md §3 C04", technique="Lean 4 specification + proved gate/boundary/recursion theorems, tied to the generated code by differential execution of generated servers and clients against the Lean driver"),
     "C03": dict(
         category="proof",
         text="Same exchanges as C02, response direction: the result the stub service returns must equal what the generated client hands to the caller, with the designed status code and exactly one WriteHeader; Lean part shared with C02 (string transport of header values, partition).",
